@@ -153,6 +153,13 @@ def run():
             sj1 = conccheck.subject_drift(work, harness, 1, runs=20, corrupt=dropper(ev), tagp='sjc_' + ev)
             print('selftest 4: the same logs with the first %-5s line removed: %d of %d cases rejected by SubjectConcTrace' % (ev, len(sj1['drift']), sj1['cases']))
             ok &= sj1['cases'] > 0 and len(sj1['drift']) == sj1['cases']
+        cd0 = conccheck.comb_drift(work, harness, 1, runs=20)
+        print('selftest 4: lock logs of %d merge cases (%d executions, %d lines) validated against CombConc: %d cases rejected (must be 0)' % (cd0['cases'], cd0['traces'], cd0['lines'], len(cd0['drift'])))
+        ok &= cd0['cases'] >= 3 and not cd0['drift']
+        for ev in ('rm', 'chk', 'cb'):
+            cd1 = conccheck.comb_drift(work, harness, 1, runs=20, corrupt=dropper(ev), tagp='cdc_' + ev)
+            print('selftest 4: the same logs with the first %-3s line removed: %d of %d cases rejected by CombConcTrace' % (ev, len(cd1['drift']), cd1['cases']))
+            ok &= cd1['cases'] > 0 and len(cd1['drift']) == cd1['cases']
         # ---- 5. the design models are not vacuous: each one has a constant that switches in a known (mostly seeded) mistake, and
         #         TLC must find the violation the model's header announces
         mutants = [
